@@ -806,12 +806,33 @@ def run(ctx):
             plan.append(("stress:" + mix, ["stress", "-mix", mix, "-skip", skip_all if predicted else "", "-dur", "45000", "-workers", "5",
                                            "-seed", str(sd * 10 + 200), "-limit", "40000"], 45 + 40 + 90))
     par = 4 if quick else 5
-    for i in range(0, len(plan), par):
-        batch = [(Child(ctx, drv_race, "s%d" % (i + j), [a for a in args if a != ""] if "" not in args else _drop_empty_skip(args), wall, True), label)
-                 for j, (label, args, wall) in enumerate(plan[i:i + par])]
-        for ch, label in batch:
+    summary = []
+    queue = [(label, _drop_empty_skip(args), wall, 0) for (label, args, wall) in plan]
+    k = 0
+    while queue:
+        batch, queue = queue[:par], queue[par:]
+        started = []
+        for (label, args, wall, gen) in batch:
+            k += 1
+            started.append((Child(ctx, drv_race, "s%d" % k, args, wall, True), label, args, wall, gen))
+        for ch, label, args, wall, gen in started:
             ch.wait()
-            add(ch, label)
+            evs = add(ch, label)
+            r = ch.result or {}
+            crashed = any(e["op"] == "crash" for e in evs)
+            planned = int(args[args.index("-dur") + 1])
+            ran = int((time.time() - ch.t0) * 1000)
+            summary.append({"run": label, "gen": gen, "planned_ms": planned, "ran_ms": ran, "calls": sum(int(c["N"]) for c in r.get("calls", {}).values()),
+                            "races": sum(1 for e in evs if e["op"] == "unsyncAccess"), "hang": any(e["op"] == "hang" for e in evs),
+                            "crash": next((e["what"] for e in evs if e["op"] == "crash"), None), "downloaded": r.get("downloaded", 0)})
+            # a child that died early (a panic of the code under test kills the whole process) is continued with another seed
+            left = planned - ran
+            if crashed and gen < 3 and left > 8000:
+                a2 = list(args)
+                a2[a2.index("-dur") + 1] = str(left)
+                a2[a2.index("-seed") + 1] = str(int(a2[a2.index("-seed") + 1]) + 7919 * (gen + 1))
+                queue.append((label, a2, left / 1000 + 100, gen + 1))
+    ctx.extra["children"] = summary
     # ---- 5. the judge ---------------------------------------------------------------------------------------------------
     tp = ctx.path("trace.ndjson")
     slim = []
